@@ -47,6 +47,19 @@ def pi_multiple(x):
     return None
 
 
+def inv_pi_multiple(x):
+    """if float x is (to 2 ulp) a simple rational divided by math.pi (e.g. RAD2DEG = 180/pi) return that Fraction"""
+    if x == 0.0 or not math.isfinite(x):
+        return None
+    fr = Fraction(x * math.pi).limit_denominator(4000)
+    if fr == 0 or abs(fr.numerator) > 400000:
+        return None
+    back = float(fr) / math.pi
+    if back == x or abs(back - x) <= 2 * math.ulp(x):
+        return fr
+    return None
+
+
 def float_fraction(x):
     """the rational a float literal stands for: its shortest decimal representation (repr), e.g. 1e-8 is
     1/10**8 and 0.1 is 1/10 -- not the 53-bit binary neighbour.  Within A-REAL (rounding is ignored anyway)
@@ -70,6 +83,10 @@ def toz(x):
         if fr is not None:
             E.used_pi = True
             return _rat(fr) * PI
+        fr = inv_pi_multiple(x)
+        if fr is not None:
+            E.used_pi = True
+            return _rat(fr) / PI
         if x == math.e:
             E.used_e = True
             return EUL
